@@ -114,7 +114,7 @@ class C20(Prop):
     lean_modules = ["EaselModel.Props.C20"]
     lean_exe = "c20_driver"
     harness = "h_simd.c"
-    harness_flags = ["-msse4.1", "-mavx2", "-mavx512f", "-mavx512dq", "-mavx512bw"]
+    harness_flags = ["-msse4.1"]      # the AVX2 / AVX-512 parts of the harness are `#pragma GCC target` regions
     theorems = ["EaselModel.Props.C20." + t for t in (
         "sse_hmax_epu8", "sse_hmax_epi8", "sse_hmax_epi16", "avx_hmax_epu8", "avx_hmax_epi8", "avx_hmax_epi16", "avx512_hmax_epu8", "avx512_hmax_epi8", "avx512_hmax_epi16", "sse_hsum_ps", "avx_hsum_ps", "avx512_hsum_ps", "sse_hmax_ps", "sse_hmin_ps", "sse_any_gt_epu8", "sse_any_gt_epi16", "avx_any_gt_epi16", "sse_any_gt_ps", "sse_select_ps", "sse_rightshiftz_float", "sse_leftshiftz_float", "avx_rightshiftz_float", "avx_leftshiftz_float", "avx512_rightshiftz_float", "avx512_leftshiftz_float", "sse_rightshift_ps", "sse_leftshift_ps", "sse_rightshift_int8", "sse_rightshift_int16", "avx_rightshift_int8", "avx_rightshift_int16", "avx512_rightshift_int8", "avx512_rightshift_int16", "logf_negative", "logf_zero_subnormal", "logf_inf_nan", "expf_underflow", "expf_overflow", "expf_cutoffs_in_window", "expf_nan", "sum_eq_real", "dot_eq_real", "vmax_spec", "vmin_spec", "argmax_spec", "argmin_spec", "argmax_nil", "sortIncreasing_spec", "sortDecreasing_spec", "norm_of_sum_ne_zero", "norm_of_sum_zero", "entropy_eq", "cdf_spec", "validate_spec", "logSum_all_ninf", "logSum_spec", "logSum_of_max_pinf", "logNorm_spec", "relEntropyGo_spec", "isum_eq", "idot_eq", "log2Sum_spec", "rightshift_fill", "logSum_spec_F", "log2Sum_spec_F", "hmaxU_spec", "hmaxS_spec", "sse_hsum_ps_real", "avx_hsum_ps_real", "avx512_hsum_ps_real", "sse_hmax_ps_real", "sse_hmin_ps_real", "dot_rounding")]
     claimed = True
